@@ -254,7 +254,7 @@ class Ctx:
                 s.f.close()
         return L()
 
-    def build(self, props_file):
+    def build(self, props_file, extra=()):
         """make the property file's dependencies, then re-check the property file itself and audit
         its Print Assumptions output.  Returns True when every obligation is discharged."""
         vo = props_file[:-2] + '.vo'
@@ -267,6 +267,10 @@ class Ctx:
                 except OSError:
                     pass
             rc, out = sh('timeout 1500 make -j%d %s 2>&1' % (NPROC, vo), cwd=COQ, timeout=1600)
+            if extra:        # modules the correspondence jobs import (built even when a proof file broke)
+                rc2, out2 = sh('timeout 1500 make -j%d %s 2>&1' % (NPROC, ' '.join(e[:-2] + '.vo' for e in extra)), cwd=COQ, timeout=1600)
+                if rc2 != 0:
+                    self.log('building model runners failed:', out2[-800:])
         self.checker_cmd = 'cd /verif/coq && make %s   (coqc 8.16.1, full .vo build; output audited: Print Assumptions)' % vo
         src = open(os.path.join(COQ, props_file)).read()
         thms = re.findall(r'^\s*(?:Theorem|Corollary)\s+(\w+)', src, re.M)
@@ -372,7 +376,7 @@ class Ctx:
         if mism:
             self.log('job', job, ': %d/%d cases DISAGREE; first: %s' % (len(mism), len(cases),
                      json.dumps(self.corr_broken[-min(len(mism), 20)][1], default=str)[:1500]))
-        else:
+        elif not errors:
             self.log('job', job, ': %d cases agree' % len(cases))
         if cases and len(self.samples) < 12:
             c = cases[self.rng.randrange(len(cases))]
